@@ -67,6 +67,18 @@ Theorem C18_rets_are_history : forall (V : Type) (zero : V) (eqb : V -> V -> boo
 Proof. exact rets_are_history. Qed.
 Print Assumptions C18_rets_are_history.
 
+(* CompareAndSwap is a retry loop (lock-free, not wait-free: an adversarial
+   schedule can make it retry for ever, which is why the theorems above speak
+   about completed calls). It is obstruction-free: from ANY configuration
+   (reachable or not), a call in progress returns within 6 steps of its thread
+   when no other thread moves meanwhile. *)
+Theorem C18_call_returns_when_alone : forall (V : Type) (zero : V) (eqb : V -> V -> bool)
+    (c : aconfig V) (t : tid) (p : apc V),
+  tpc V c t = Some p -> p <> AIdle ->
+  exists n, n <= 6 /\ tpc V (solo V zero eqb c t n) t = Some AIdle.
+Proof. exact call_returns_when_alone. Qed.
+Print Assumptions C18_call_returns_when_alone.
+
 (* ---------------- Pool ---------------- *)
 
 (* Ownership: in every reachable configuration every token occurs at most
